@@ -1125,7 +1125,7 @@ func (fr *Frame) callWrites(c *ssa.CallCommon, env map[ssa.Value]Val, fv map[*ss
 			}
 			return
 		}
-		if sp.Effect || (!sp.Pure && vc.W.MayEffect(callee)) {
+		if sp.Effect || (!sp.Pure && vc.W.BodyMayEffect(callee)) {
 			markTrace()
 		}
 		// only what `modifies` names: map the root identifier of each modifies expr to an argument
